@@ -154,6 +154,7 @@ namespace bloch::compiler {
         struct ClassInfo {
             std::string name;
             std::string base;
+            TypeInfo baseType;  // the base as written ('Box<T>'), for generic subtyping
             bool isStatic = false;
             bool isAbstract = false;
             bool hasDestructor = true;       // implicit default exists
